@@ -115,7 +115,7 @@ func init() {
 		NotDecided:  []string{"the rest of the textual definition of 'is a dotted-decimal IPv4 address' (digits only, no leading zero)"},
 		Assumptions: commonAssumptions})
 	describe(&PropertyDoc{ID: "C20",
-		Explanation: "Absence of the two super-linear mechanisms the anchors name, in module code.",
+		Explanation: "Absence of the super-linear mechanisms the anchors name - and of three more that seeded changes introduced - in module code.",
 		Decides:     []string{"no string accumulated by concatenation around an input-dependent loop (COST-concat)", "no O(n) copy inside such a loop; O(remaining-input) cursor helpers only on paths that leave their state (COST-copy, SM-onevisit)", "functions that walk a URL component (path, parameter list, serialisation) are called in the state machine only on paths that leave the state (SM-onevisit)", "reporting a validation error costs O(1): the input string an error quotes is only stored and handed on between the handlers and the constructors (COST-report)"},
 		NotDecided:  []string{"the overall bound (amortised re-scans after rewind, allocation volume, cost inside dependencies such as IDNA)"},
 		Assumptions: commonAssumptions})
